@@ -61,6 +61,10 @@ THEOREMS = [
     "KrroodVerif.Eql.C01_quant_need_shape",
     "KrroodVerif.Eql.C01_quant_need_scope",
 ]
+# second tie (translator): the table of construction-time rewrites regenerated from the current source equals the one
+# `build` transcribes and is admissible — the same two obligations as C02 (harness/translate/c02_translate.py)
+from props.c02 import extra_obligations  # noqa: E402,F401
+
 MODEL_FUNCTION = "Eql.evalQuery / Eql.eval / Eql.build (Model/Eql.lean)"
 TRUSTED = [
     "Lean 4.33 kernel; axioms of each theorem listed under coverage.theorems",
